@@ -663,12 +663,12 @@ def c_rewrite_carried(ctx):
                 for l in walk_no_nested(steps))
     for c in cons:
         kw = [k for k in c.keywords if k.arg == "context_updates"]
-        inherits = bool(kw) and "context_updates" in src(kw[0].value) and "state" in src(kw[0].value)
+        inherits = bool(kw) and re.search(r"(?<![\w.])state\.context_updates", src(kw[0].value)) is not None
         # or assigned right after the construction
         tgt = c._parent.targets[0].id if isinstance(getattr(c, "_parent", None), ast.Assign) and isinstance(c._parent.targets[0], ast.Name) else None
         later = tgt is not None and any(
-            (isinstance(a, ast.Assign) and src(a.targets[0]) == tgt + ".context_updates" and "state.context_updates" in src(a.value)) or
-            (isinstance(a, ast.Call) and src(a.func) == tgt + ".context_updates.update" and a.args and "state.context_updates" in src(a.args[0]))
+            (isinstance(a, ast.Assign) and src(a.targets[0]) == tgt + ".context_updates" and re.search(r"(?<![\w.])state\.context_updates", src(a.value))) or
+            (isinstance(a, ast.Call) and src(a.func) == tgt + ".context_updates.update" and a.args and re.search(r"(?<![\w.])state\.context_updates", src(a.args[0])))
             for a in walk_no_nested(fn))
         ok = inherits or later or accum
         ctx.check("C01.c.rewrite-carried", FL1, "compute_next_state", first_line(c, 60), ok,
